@@ -929,6 +929,19 @@ pub fn corpus(prop: &str) -> Vec<Case> {
         child: false,
         origin: format!("corpus {} run-to-completion", prop),
     });
+    // late binding: a state's <data> get their values when the state is first entered, i.e. AFTER the onentry
+    // content of the states entered before it in the same microstep (C's v1 is v0 + 1 = 6, D's v2 = v0 + 2 = 7)
+    v.push(Case {
+        xml: "<scxml xmlns=\"http://www.w3.org/2005/07/scxml\" version=\"1.0\" datamodel=\"vdm\" name=\"m\" binding=\"late\"><datamodel><data id=\"v0\" expr=\"0\"/><data id=\"v1\" expr=\"0\"/><data id=\"v2\" expr=\"0\"/></datamodel>\
+            <state id=\"P\"><onentry><assign location=\"v0\" expr=\"v0 + 5\"/></onentry>\
+            <state id=\"C\"><datamodel><data id=\"v1\" expr=\"v0 + 1\"/></datamodel><onentry><log label=\"l\" expr=\"v1\"/></onentry><transition event=\"a\" target=\"D\"/></state>\
+            <state id=\"D\"><datamodel><data id=\"v2\" expr=\"v0 + 2\"/></datamodel><onentry><log label=\"l\" expr=\"v2\"/></onentry><transition event=\"a\" target=\"C\"/></state></state></scxml>"
+            .to_string(),
+        events: ["a", "a", "b"].iter().map(|s| s.to_string()).collect(),
+        single: true,
+        child: false,
+        origin: format!("corpus {} late-binding-after-earlier-onentry", prop),
+    });
     // shallow history in a compound, internal vs external self-targeting
     v.push(Case {
         xml: base("<state id=\"c\" initial=\"c1\"><history id=\"h\"><transition target=\"c2\"><log label=\"l\" expr=\"7\"/></transition></history>\
